@@ -13,7 +13,8 @@ type BatchCase struct {
 	Key  string
 	Prog *Program
 	// gate names under which this case is skipped while a known finding is open
-	Gate string
+	Gate      string
+	MayReject bool // the form is not known to be part of the accepted language: a rejection discards the case
 }
 
 // judgeBatch: reference (32-bit) vs the emitted Batch script under the cmd
@@ -43,6 +44,11 @@ func judgeBatch(c *Check, bc BatchCase) caseOutcome {
 	c.Eval(id, len(ref.Stdout) > 0 && len(ref.Features) >= 3)
 	c.AddFeats(ref.Features)
 	tr := TranspileFile(mainPath, Batch, 30*time.Second)
+	if tr.Err != nil && bc.MayReject {
+		c.Count("may_reject_cases_rejected", 1)
+		c.Discard()
+		return outcomeDiscarded
+	}
 	if !tr.OK() {
 		msg := "hang"
 		if tr.Err != nil {
@@ -261,7 +267,7 @@ func checkC05(c *Check) {
 	cases := []BatchCase{}
 	addBash := func(prefix string, bcs []BashCase) {
 		for _, bc := range bcs {
-			cases = append(cases, BatchCase{Key: prefix + bc.Key, Prog: bc.Prog})
+			cases = append(cases, BatchCase{Key: prefix + bc.Key, Prog: bc.Prog, MayReject: bc.MayReject})
 		}
 	}
 	addBash("C01/", c01Families(c))
